@@ -4,10 +4,14 @@ from engine.driver import run_property, Task, LemmaTask, Lem
 from engine.core import Iface, Opaque, ChanV, TupleV, Ptr, concrete_bool
 from props.common import filter_tasks, TRUSTED, BASE_ASSUME, scan_lemma, ext_iface, nil_value
 from props.mem_common import keep_labels
+import props.mapper_common as mc
+import props.ppu_common as pc
+import props.audio_common as ac
+import props.wiring as wr
 
 MANIFEST = {
     "level": "proof",
-    "text": "runFrame: with the five per-cycle entry points abstracted to ghost tick counters, the loop invariant 'after mtick iterations every counter advanced by exactly mtick, and the timer interrupt request equals its old value or any overflow reported so far' is proved on entry and preserved (with a decreasing measure, so the loop ends), giving exactly 17,556 calls of each of cpu.ExecuteMachineCycle, ppu/memory/audio/timer.EndMachineCycle per frame; obligations attached to the abstracted calls prove the order inside every iteration: the CPU call happens when all five counters are equal (CPU first) and each of the other four happens exactly once after it; the frame is handed to the display exactly once when a display exists and the result is false otherwise. Run: with ctx.Done() modelled by a ghost 'cancelled' flag that may become true at any time, a frame is proved to start only directly after the non-blocking select saw the context not cancelled (so at most the frame in progress completes after cancellation), a true result of runFrame (display asks to close) ends the loop at once, and every return path runs the deferred Cleanup exactly once, which calls speakers.Cleanup / display.Cleanup iff the respective object exists.",
+    "text": "runFrame: with the five per-cycle entry points abstracted to ghost tick counters, the loop invariant 'after mtick iterations every counter advanced by exactly mtick, and the timer interrupt request equals its old value or any overflow reported so far' is proved on entry and preserved (with a decreasing measure, so the loop ends), giving exactly 17,556 calls of each of cpu.ExecuteMachineCycle, ppu/memory/audio/timer.EndMachineCycle per frame; obligations attached to the abstracted calls prove the order inside every iteration: the CPU call happens when all five counters are equal (CPU first) and each of the other four happens exactly once after it; the frame is handed to the display exactly once when a display exists and the result is false otherwise. Run: with ctx.Done() modelled by a ghost 'cancelled' flag that may become true at any time, a frame is proved to start only directly after the non-blocking select saw the context not cancelled (so at most the frame in progress completes after cancellation), a true result of runFrame (display asks to close) ends the loop at once, and every return path runs the deferred Cleanup exactly once, which calls speakers.Cleanup / display.Cleanup iff the respective object exists. Progress per call: Mapper.EndMachineCycle (for each controller) performs exactly one DMA step and one RTC tick, rtc.tick advances the sub-second count by one unless halted, timer.EndMachineCycle advances the 16-bit counter by 4 and reports the overflow, ppu.EndMachineCycle advances the frame position by one, audio.EndMachineCycle advances the APU clock by 4 and emits one stereo sample per multiple of 95 among them. Wiring: the real gameboy.New is executed symbolically: the components runFrame steps are the very objects the CPU, PPU and bus refer to (one object per component), serial output goes to Config.SerialWriter, audio gets the speakers' channels iff there are speakers, the display gets this machine's controller and CPU.OnInput.",
     "note": "Assumed contracts: the five component entry points are abstract here (their own behaviour is C01-C21); context.Context.Done() returns a channel that is ready iff the context is cancelled, cancellation is monotone; display.RenderFrame / display.Cleanup / speakers.Cleanup are the (cgo, stubbed) environment. Liveness ('stops') is phrased as safety: no new frame starts once cancellation has been observed. That every component call corresponds to one machine cycle of that component is the subject of C10/C12/C13/C16/C20.",
     "technique": "loop invariants with ghost counters over the real go/ssa of runFrame and Run (defer, non-blocking select); z3",
     "design_ref": "DESIGN.md section 4 C26",
@@ -153,6 +157,29 @@ def tasks(ctx):
     for variant, ov in (("all-outputs", dict(OV)), ("no-outputs", dict(OV, **{"gb.display": nil_value, "gb.speakers": nil_value})),
                         ("speakers-only", dict(OV, **{"gb.display": nil_value})), ("display-only", dict(OV, **{"gb.speakers": nil_value}))):
         ts.append(Task(G + "Cleanup[%s]" % variant, G + "Cleanup", variant=variant, overrides=ov, setup=setup_ghost))
+    # one call = one machine cycle of progress of that component (DIV +4, frame position +1, DMA step, RTC sub-second count,
+    # four APU clocks with their samples): the clauses of the per-cycle entry points that say so
+    from engine import vsl
+
+    def mbc_valid(kind):
+        def f(w, st, args):
+            ce = w.e.ev
+            env = {"m": vsl.TV(args[0], ce.ev.ty_of(mc.ptr_tid(w.p, "memory.Mapper")))}
+            return ce.ev.as_bool(ce.ev.eval(vsl.parse("%s(m.mbc)" % mc.MBC_VALID[kind]), env, st, st))
+        return f
+    for kind in ("none", "mbc1", "mbc2", "mbc3", "mbc5"):
+        ov = {"Audio.ch2.sweep": nil_value, "Mapper.mbc": mc.mbc_override(kind)}
+        ts.append(Task(mc.M + "EndMachineCycle[%s]" % kind, mc.M + "EndMachineCycle", variant=kind, overrides=ov, extra_requires=[mbc_valid(kind)],
+                       keep=keep_labels({"rtc", "dma", "ok"})))
+    ts.append(Task("(*memory.rtc).tick", "(*memory.rtc).tick", keep=keep_labels({"halted", "count", "ok"})))
+    ts.append(Task("(*timer.Timer).EndMachineCycle", "(*timer.Timer).EndMachineCycle", keep=keep_labels({"counter", "irq"})))
+    ts.append(pc.ppu_task("EndMachineCycle", ["off", "ticks", "inv"]))
+    both = dict(ac.OV, **{"Audio.l": ac.chan_ov("left"), "Audio.r": ac.chan_ov("right")})
+    ts.append(Task(ac.A + "EndMachineCycle[outputs]", ac.A + "EndMachineCycle", variant="outputs", overrides=both, keep=keep_labels({"clock", "samples", "untriggered", "ok"})))
+    ts.append(Task(ac.A + "EndMachineCycle[no-outputs]", ac.A + "EndMachineCycle", variant="no-outputs", overrides=ac.OV, keep=keep_labels({"clock", "samples", "untriggered", "ok"})))
+    ts.append(Task("(*oam.OAM).TickDMA", "(*oam.OAM).TickDMA", args=pc.tickdma_args, keep=keep_labels({"idle", "setup", "first", "copy", "last", "ok"})))
+    # the machine that runs is the one gameboy.New builds: one object per component, all references consistent
+    ts.append(LemmaTask("lemma:power-on", lambda c, e, ce: wr.power_on(c, e, ce, invariants=False), ["gameboy.New", "memory.New", "cpu.New", "ppu.New", "audio.New"]))
     ts.append(scan_lemma("scan:runFrame-loop-body-order", loop_body_scan, ["(*gameboy.Gameboy).runFrame (SSA scan)"]))
     ts.append(scan_lemma("scan:gameboy.New-wiring", wiring_scan, ["gameboy.New (SSA scan)"]))
     return filter_tasks(ts)
